@@ -41,6 +41,7 @@ pub mod nundb_proxy {
 
 mod common;
 mod driver;
+mod kv;
 mod props;
 mod world;
 
